@@ -96,6 +96,9 @@ var coreDirs = map[string]bool{"skip": true, "include": true, "deprecated": true
 
 // IntroView runs the introspection request on the root and projects the response onto the
 // view of Introspect!IntroView. errs is non-nil if the response carries errors.
+// PseudoTypes counts the entries of `types` that are no types (see IntroView).
+var PseudoTypes int
+
 func IntroView(root *ggql.Root, includeDeprecated bool) (view map[string]interface{}, errs interface{}) {
 	inc := "false"
 	if includeDeprecated {
@@ -112,7 +115,13 @@ func IntroView(root *ggql.Root, includeDeprecated bool) (view map[string]interfa
 	for _, t := range l(sc["types"]) {
 		tm := m(t)
 		name := str(tm["name"])
-		if introCore[name] || builtinScalars[name] || str(tm["kind"]) == "SCHEMA" || name == "" || name == "schema" {
+		if str(tm["kind"]) == "SCHEMA" || name == "" || name == "schema" {
+			// known finding SchemaBlockListedAsType: the schema block is kept in the root's type list and comes out of
+			// `types` as an OBJECT called "schema"; it is left out of the view and reported on its own (PseudoTypes)
+			PseudoTypes++
+			continue
+		}
+		if introCore[name] || builtinScalars[name] {
 			continue
 		}
 		fields := map[string]interface{}{}
